@@ -412,3 +412,36 @@ def run_c18(tier_: str) -> int:
 
 def run(prop: str, tier_: str) -> int:
     return run_c17(tier_) if prop == "C17" else run_c18(tier_)
+
+
+def replay(prop: str, path: str) -> int:
+    doc = common.load_replay(path)
+    case = doc["case"]
+    if prop == "C17":
+        from kio.records.schema import NewRecordBatch
+        from kio.records.writers import write_new_batch
+
+        res = Result("C17", "exploration", doc.get("tier", "quick"))
+        b = dict(case["batch"])
+        b["_abs"] = {"offsets": [b["base_offset"] + r["offset_delta"] for r in b["records"]],
+                     "timestamps": [b["base_timestamp"] + r["timestamp_delta"] for r in b["records"]]}
+        b["records"] = [dict(r, headers=[tuple(h) for h in r["headers"]]) for r in b["records"]]
+        print(f"replay C17: batch of {len(b['records'])} records ({doc['key']})")
+        try:
+            buf = io.BytesIO()
+            write_new_batch(buf, NewRecordBatch(producer_id=b["producer_id"], producer_epoch=b["producer_epoch"], partition_leader_epoch=b["partition_leader_epoch"],
+                                                base_sequence=b["base_sequence"], records=to_kio_records(b), attributes=b["attributes"]))
+            if buf.getvalue() != recref.encode_batch(b):
+                res.violation(doc["key"], "write_new_batch output differs from the reference v2 encoding of its input", case)
+        except Exception as exc:  # noqa: BLE001
+            res.violation(doc["key"], f"write_new_batch raised {exc!r}", case)
+        return common.finish_replay(res)
+    res = Result("C18", "fault_enumeration", doc.get("tier", "quick"))
+    raw = case["bytes"]
+    print(f"replay C18: batch of {len(raw)} bytes, {case.get('kind', 'identity')} ({doc['key']})")
+    if "damaged" in case:
+        _must_fail(res, case["damaged"], case["kind"], case["detail"], {}, {"origin": case.get("origin"), "bytes": raw})
+    else:
+        b, _ = recref.decode_batch(raw)
+        _identity(res, raw, b, case.get("origin", "replay"))
+    return common.finish_replay(res)
